@@ -394,4 +394,80 @@ theorem getdata_decode_serialize (items : List (Nat × Bytes)) (e rest : Bytes)
     Option.bind_eq_bind, Option.bind_some]
   exact decodeInvItems_invBody items rest h
 
+/-- a version message whose fields have their protocol widths -/
+def VersionWF (m : Version) : Prop :=
+  m.version < 2 ^ 32 ∧ m.services < 2 ^ 64 ∧ m.timestamp < 2 ^ 64 ∧ m.receiverServices < 2 ^ 64 ∧
+  m.receiverIp.length = 4 ∧ m.receiverPort < 2 ^ 16 ∧ m.senderServices < 2 ^ 64 ∧ m.senderIp.length = 4 ∧
+  m.senderPort < 2 ^ 16 ∧ m.nonce.length = 8 ∧ m.userAgent.length < 2 ^ 63 ∧ m.latestBlock < 2 ^ 32
+
+theorem version_serialize_eq (m : Version) (wf : VersionWF m) :
+    ∃ ua, encodeVarstr m.userAgent = some ua ∧
+    m.serialize = some (natToLE' 4 m.version ++ natToLE' 8 m.services ++ natToLE' 8 m.timestamp
+      ++ natToLE' 8 m.receiverServices ++ ipv4Prefix ++ m.receiverIp ++ natToLE' 2 m.receiverPort
+      ++ natToLE' 8 m.senderServices ++ ipv4Prefix ++ m.senderIp ++ natToLE' 2 m.senderPort ++ m.nonce
+      ++ ua ++ natToLE' 4 m.latestBlock ++ [if m.relay then 1 else 0]) := by
+  obtain ⟨h1, h2, h3, h4, _, h6, h7, _, h9, _, h11, h12⟩ := wf
+  have e : (encodeVarint m.userAgent.length).isSome := (encodeVarint_isSome_iff _).mpr (by omega)
+  obtain ⟨v, hv⟩ := Option.isSome_iff_exists.mp e
+  refine ⟨v ++ m.userAgent, by simp [encodeVarstr, hv], ?_⟩
+  simp only [Version.serialize, natToLE_some (show m.version < 256 ^ 4 by omega),
+    natToLE_some (show m.services < 256 ^ 8 by omega), natToLE_some (show m.timestamp < 256 ^ 8 by omega),
+    natToLE_some (show m.receiverServices < 256 ^ 8 by omega), natToLE_some (show m.receiverPort < 256 ^ 2 by omega),
+    natToLE_some (show m.senderServices < 256 ^ 8 by omega), natToLE_some (show m.senderPort < 256 ^ 2 by omega),
+    natToLE_some (show m.latestBlock < 256 ^ 4 by omega), hv, Option.pure_def, Option.bind_eq_bind, Option.bind_some,
+    List.append_assoc]
+
+/-- `version`: the documented decoder recovers every field of a well-formed message -/
+theorem version_decode_serialize (m : Version) (e : Bytes) (wf : VersionWF m) (he : m.serialize = some e) :
+    decodeVersion e = some m := by
+  obtain ⟨ua, hua, hs⟩ := version_serialize_eq m wf
+  obtain ⟨h1, h2, h3, h4, h5, h6, h7, h8, h9, h10, h11, h12⟩ := wf
+  rw [hs] at he; cases he
+  have lua : 1 ≤ ua.length := by
+    unfold encodeVarstr at hua
+    obtain ⟨v, hv, rfl⟩ := Option.map_eq_some_iff.mp hua
+    have := encodeVarint_length _ _ hv
+    simp only [List.length_append]
+    split at this <;> omega
+  have lpre : ipv4Prefix.length = 12 := by decide
+  have hlen : ¬ (natToLE' 4 m.version ++ natToLE' 8 m.services ++ natToLE' 8 m.timestamp
+      ++ natToLE' 8 m.receiverServices ++ ipv4Prefix ++ m.receiverIp ++ natToLE' 2 m.receiverPort
+      ++ natToLE' 8 m.senderServices ++ ipv4Prefix ++ m.senderIp ++ natToLE' 2 m.senderPort ++ m.nonce
+      ++ ua ++ natToLE' 4 m.latestBlock ++ [if m.relay then 1 else 0]).length < 85 := by
+    simp [lpre, h5, h8, h10]; omega
+  unfold decodeVersion
+  rw [if_neg hlen]
+  simp only [List.append_assoc]
+  rw [take_append_len _ _ 4 (natToLE'_length 4 _), drop_append_len _ _ 4 (natToLE'_length 4 _),
+    take_append_len _ _ 8 (natToLE'_length 8 _), drop_append_len _ _ 8 (natToLE'_length 8 _),
+    take_append_len _ _ 8 (natToLE'_length 8 _), drop_append_len _ _ 8 (natToLE'_length 8 _),
+    take_append_len _ _ 8 (natToLE'_length 8 _), drop_append_len _ _ 8 (natToLE'_length 8 _),
+    take_append_len _ _ 12 lpre, drop_append_len _ _ 12 lpre]
+  simp only [ne_eq, not_true_eq_false, if_false]
+  rw [take_append_len _ _ 4 h5, drop_append_len _ _ 4 h5,
+    take_append_len _ _ 2 (natToLE'_length 2 _), drop_append_len _ _ 2 (natToLE'_length 2 _),
+    take_append_len _ _ 8 (natToLE'_length 8 _), drop_append_len _ _ 8 (natToLE'_length 8 _),
+    take_append_len _ _ 12 lpre, drop_append_len _ _ 12 lpre]
+  simp only [ne_eq, not_true_eq_false, if_false]
+  rw [take_append_len _ _ 4 h8, drop_append_len _ _ 4 h8,
+    take_append_len _ _ 2 (natToLE'_length 2 _), drop_append_len _ _ 2 (natToLE'_length 2 _),
+    take_append_len _ _ 8 h10, drop_append_len _ _ 8 h10,
+    readVarstr_encodeVarstr _ _ _ h11 hua]
+  simp only [Option.pure_def, Option.bind_eq_bind, Option.bind_some]
+  have l5 : ¬ (natToLE' 4 m.latestBlock ++ [if m.relay then (1 : UInt8) else 0]).length ≠ 5 := by simp
+  rw [if_neg l5, take_append_len _ _ 4 (natToLE'_length 4 _), drop_append_len _ _ 4 (natToLE'_length 4 _)]
+  rw [leToNat_natToLE'_of_lt (show m.version < 256 ^ 4 by omega),
+    leToNat_natToLE'_of_lt (show m.services < 256 ^ 8 by omega),
+    leToNat_natToLE'_of_lt (show m.timestamp < 256 ^ 8 by omega),
+    leToNat_natToLE'_of_lt (show m.receiverServices < 256 ^ 8 by omega),
+    leToNat_natToLE'_of_lt (show m.receiverPort < 256 ^ 2 by omega),
+    leToNat_natToLE'_of_lt (show m.senderServices < 256 ^ 8 by omega),
+    leToNat_natToLE'_of_lt (show m.senderPort < 256 ^ 2 by omega),
+    leToNat_natToLE'_of_lt (show m.latestBlock < 256 ^ 4 by omega)]
+  cases hr : m.relay <;> simp [hr] <;> (cases m; simp_all)
+
+example : VersionWF ⟨70015, 0, 1700000000, 0, [127, 0, 0, 1], 8333, 0, [10, 0, 0, 2], 18333,
+    [1, 2, 3, 4, 5, 6, 7, 8], [0x2f, 0x62, 0x2f], 800000, true⟩ := by
+  unfold VersionWF; simp
+
 end Buidl.Props.C19
